@@ -124,7 +124,7 @@ type Res struct {
 	Died    bool             `json:"died,omitempty"` // filled by the engine: the probe process ended during this op
 }
 
-type File struct{ Name, Content string }
+type File = cfg.File
 
 // Unit is one configuration and everything observed about it.
 type Unit struct {
@@ -366,52 +366,69 @@ func (l *Lab) compile(units []*Unit, stub bool) error {
 	if stub {
 		args = append(args, "-tags", "gontainerstub")
 	}
+	sub := "gen/"
+	if stub {
+		sub = "stub/"
+	}
+	rePath := regexp.MustCompile(`(?:^|[\s/])` + sub + `(c[0-9]+[a-z0-9_]*)/`)
 	for i := 0; i < len(pkgs); i += 400 {
 		j := i + 400
 		if j > len(pkgs) {
 			j = len(pkgs)
 		}
-		r := l.W.Go(l.W.Mod, false, 30*time.Minute, append(args, pkgs[i:j]...)...)
-		if r.TimedOut {
-			return fmt.Errorf("go build timed out")
-		}
-		if r.Exit != 0 {
+		remaining := append([]string(nil), pkgs[i:j]...)
+		// repeat until the remaining set builds: a load-stage error (e.g. an import that does not exist)
+		// aborts the whole build, so the other packages have to be built again without the offender
+		for round := 0; len(remaining) > 0; round++ {
+			r := l.W.Go(l.W.Mod, false, 30*time.Minute, append(args, remaining...)...)
+			if r.TimedOut {
+				return fmt.Errorf("go build timed out")
+			}
+			if r.Exit == 0 {
+				break
+			}
+			failed := map[string]bool{}
 			var cur *Unit
-			attributed := false
+			var misc []string
 			for _, ln := range work.Lines(r.Stderr + "\n" + r.Stdout) {
 				if m := rePkgHeader.FindStringSubmatch(ln); m != nil {
 					cur = byPath[m[1]]
 					if cur != nil {
 						cur.Compiled = false
-						attributed = true
+						failed[m[1]] = true
 					}
 					continue
+				}
+				if m := rePath.FindStringSubmatch(ln); m != nil {
+					if u := byPath["fixt/"+sub+m[1]]; u != nil {
+						u.Compiled = false
+						failed["fixt/"+sub+m[1]] = true
+						if len(u.CompileErr) < 4000 {
+							u.CompileErr += ln + "\n"
+						}
+						continue
+					}
 				}
 				if cur != nil {
 					if len(cur.CompileErr) < 4000 {
 						cur.CompileErr += ln + "\n"
 					}
 				} else if strings.TrimSpace(ln) != "" {
-					// an error outside any generated package (fixtures, module setup): harness failure
-					if !strings.HasPrefix(ln, "go: ") || !attributed {
-						// try to attribute by path mention
-						found := false
-						for p, u := range byPath {
-							if strings.Contains(ln, strings.TrimPrefix(p, "fixt/")+"/") {
-								u.Compiled = false
-								u.CompileErr += ln + "\n"
-								found = true
-								attributed = true
-							}
-						}
-						if !found {
-							return fmt.Errorf("go build failed outside generated packages: %s", ln)
-						}
-					}
+					misc = append(misc, ln)
 				}
 			}
-			if !attributed {
-				return fmt.Errorf("go build failed without attributable package: %s", r.Stderr)
+			if len(failed) == 0 {
+				return fmt.Errorf("go build failed outside generated packages: %s", strings.Join(misc, " | "))
+			}
+			var next []string
+			for _, p := range remaining {
+				if !failed[p] {
+					next = append(next, p)
+				}
+			}
+			remaining = next
+			if round > 400 {
+				return fmt.Errorf("go build: too many rounds")
 			}
 		}
 	}
